@@ -153,7 +153,7 @@ def run_l3(nsims=None, name="runc", timeout=600, **force):
             "total_s": round(time.time() - t0, 1), "mismatches": bad[:10], "samples": [{"cfg": cfgs[0]}] if cfgs else []}
 
 
-FORCE_BY_PID = {"C19": {"gw": True}}      # whole runs for a property about one feature are drawn with that feature on
+FORCE_BY_PID = {"C19": {"gw": True}, "C02": {"inert": True}, "C20": {"inert": True}}      # whole runs for a property about one feature are drawn with that feature on
 
 
 def run_custom(n, pid):
